@@ -8,9 +8,19 @@ THEOREMS = [
     'Ndn.C15.triggers_all_parsed', 'Ndn.C15.no_delete_triggers', 'Ndn.C15.update_triggers_need_new_default',
     'Ndn.C15.foreign_keys_off', 'Ndn.C15.triggers_closed_form', 'Ndn.C15.statements_as_modelled',
     'Ndn.C15.default_unique', 'Ndn.C15.default_exists', 'Ndn.C15.lost_only_by_deleting_default',
-    'Ndn.C15.views_agree',
+    'Ndn.C15.views_agree', 'Ndn.C15.del_key_cascades', 'Ndn.C15.del_identity_cascades',
+    'Ndn.C15.signer_right_key', 'Ndn.C15.no_signer_for_deleted', 'Ndn.C15.reopen_same',
 ]
-PARTIAL = {}
+PARTIAL = {
+    'Ndn.C15.retry_recovers': 'not stated as a theorem: it is FALSE for the code (a failed multi-step operation is not rolled '
+                              'back, see candidate_fixes/C15-failed-operation-not-rolled-back.md); the fault-injecting tier '
+                              'reports each instance as a known finding. What IS proved for histories with failures: '
+                              'default_unique, default_exists, views_agree, signer_right_key, no_signer_for_deleted and the '
+                              'delete cascades of operations that return normally',
+    'Ndn.C15.views_scoped': 'views_agree proves lookups/iteration are scoped to the owner row and that views of different owners '
+                            'are disjoint; that a key row always hangs below the identity it is named after (no orphan adoption '
+                            'after row-id reuse) is checked by the oracle on the implementation but not proved',
+}
 TRUSTED = [
     'C15: sqlite statement semantics as modelled: a statement is atomic; INTEGER PRIMARY KEY rowid = max+1; unique indexes; '
     'BEFORE/AFTER INSERT/UPDATE triggers interpreted from the generated trigger table with recursive_triggers off; foreign '
@@ -283,7 +293,7 @@ NFAULT = {'ni': 4, 'ti': 12, 'nk': 7, 'ic': 2, 'sdi': 2, 'sdk': 2, 'sdc': 2, 'di
 
 
 def cases(rng, tier):
-    n = 170 if tier == 'quick' else 2500
+    n = 450 if tier == 'quick' else 2500
     for j in range(n):
         m = _Mirror()
         ops = []
@@ -311,6 +321,14 @@ def cases(rng, tier):
     # the scenarios of finding F12, always present
     for c in F12_CASES:
         yield c
+    if tier == 'thorough':
+        # every operation kind failing at each of its fault points, followed by its repetition
+        base = [_op('ti', 1), _op('ti', 2), _op('nk', 1, 'e'), _op('ic', [1, 0], [1, 0, 1])]
+        for o in [_op('ni', 3), _op('ti', 3), _op('nk', 1, 'e'), _op('nk', 2, 'e'), _op('ic', [1, 0], [1, 0, 2]),
+                  _op('sdi', 2), _op('sdk', 1, [1, 2]), _op('sdc', [1, 0], [1, 0, 1]), _op('di', 1), _op('di', 2),
+                  _op('dk', [1, 0]), _op('dk', [1, 2]), _op('dc', [1, 0, 0]), _op('gs', ['k', [1, 2]], None)]:
+            for f in range(NFAULT[o['c']] + 2):
+                yield {'ops': base + [dict(o, f=f), dict(o, retry=True), _op('gs', ['i', 1], None), _op('ro')]}
 
 
 F12_CASES = [
@@ -383,6 +401,7 @@ class _Rig:
         self.kc = None
         self.open()
         self.kid_of_file = {}     # file name -> kid
+        self.idn_of_kid = {}      # kid -> identity the generating operation named
         self.key_name = {}        # kid -> (idn, FormalName)
         self.key_bits = {}        # kid -> public key bits as first seen through the API
         self.key_label = {}       # name bytes -> 'idn.kid'
@@ -453,11 +472,12 @@ class _Rig:
         return self.Name.from_str(f'/loc{n}')
 
     # ---- learning the names of freshly generated keys
-    def learn(self):
+    def learn(self, hint_idn=None):
         files = sorted(os.listdir(self.tpmd))
         for f in files:
             if f not in self.kid_of_file:
                 self.kid_of_file[f] = self.next_kid
+                self.idn_of_kid[self.next_kid] = hint_idn
                 self.next_kid += 1
         try:
             for iname in list(self.kc):
@@ -663,7 +683,7 @@ class _Rig:
             elif kid in self.key_name:
                 files.append(_lab_key([self.key_name[kid][0], kid]))
             else:
-                files.append(f'?.{kid}')
+                files.append(f'{self.idn_of_kid.get(kid)}.{kid}')
         snap['files'] = files
         return snap
 
@@ -762,7 +782,7 @@ def _run_history(ops):
             except Exception as e:      # noqa
                 exc = type(e).__name__
             rig.armed = None
-            rig.learn()
+            rig.learn(op['a'][0] if op['c'] in ('ti', 'nk') else None)
             rec['exc'] = exc
             rec['signer'] = res
             for kid, (idn, _) in rig.key_name.items():
@@ -941,10 +961,6 @@ def _oracle_trace(trace, check_reopen=True):
         if c == 'ic' and rec['exc'] == 'InjectedFault' and _lab_cert(a[1]) not in homes:
             homes[_lab_cert(a[1])] = _lab_key(a[0])     # may have been written before the failing commit
         why = _views_ok(snap, homes)
-        visible = {cl for iv in snap['ids'].values() for kv in iv['keys'].values() if kv for cl in kv['iter']}
-        for cl in [cl for cl in homes if cl not in visible]:
-            if homes[cl] not in deleted:
-                del homes[cl]
         if why:
             return f'op {n}: {why}'
         # defaults
@@ -980,7 +996,10 @@ def _oracle_trace(trace, check_reopen=True):
             elif c == 'dk':
                 gone = [_lab_key(a[0])]
             deleted.update(gone)
+            for cl in [cl for cl, k in homes.items() if k in gone]:
+                del homes[cl]
             if c == 'dc':
+                homes.pop(_lab_cert(a[0]), None)
                 for i, iv in snap['ids'].items():
                     for kl, kv in iv['keys'].items():
                         if kv and _lab_cert(a[0]) in kv['iter']:
